@@ -6,6 +6,7 @@ import (
 	"math/rand"
 	"os"
 	"regexp"
+	"runtime/debug"
 	"sort"
 	"strconv"
 	"strings"
@@ -893,6 +894,9 @@ func c06Pipeline(sdl, op string, vars []byte) (accepted bool, stage string, msg 
 	defer func() {
 		if p := recover(); p != nil {
 			panicked = p
+			if os.Getenv("VERIF_DEBUG") != "" {
+				fmt.Fprintf(os.Stderr, "%s\n", debug.Stack())
+			}
 		}
 	}()
 	schema, err := graphql.NewSchemaFromString(sdl)
